@@ -314,6 +314,31 @@ func checkC09(a *checkArgs, r *Result) error {
 			rjobs = append(rjobs, rjob{b, k, k%2 == 1})
 		}
 	}
+	// multi-stream files with stream padding: faults inside and right after the padding words, both fault styles
+	var xzs []baseStream
+	for _, b := range streams {
+		if b.Kind == "xz" && len(b.Stream) < 400 {
+			xzs = append(xzs, b)
+		}
+	}
+	for i := 0; i+2 < len(xzs) && i < 12; i += 3 {
+		var st, content []byte
+		name := "chain"
+		for j, b := range xzs[i : i+3] {
+			st = append(st, b.Stream...)
+			content = append(content, b.Content...)
+			pad := []int{8, 4, 0, 12}[(i+j)%4]
+			if j == 2 {
+				pad = []int{0, 4}[i%2]
+			}
+			st = append(st, make([]byte, pad)...)
+			name += fmt.Sprintf("/%d+pad%d", len(b.Stream), pad)
+		}
+		cb := baseStream{"xz", name, st, content, xzs[i].Check}
+		for k := 0; k < len(st); k++ {
+			rjobs = append(rjobs, rjob{cb, k, false}, rjob{cb, k, true})
+		}
+	}
 	for _, j := range rjobs {
 		wg.Add(1)
 		sem <- struct{}{}
